@@ -77,7 +77,11 @@ func (ts *Timestamp) MarshalJSON() ([]byte, error) {
 // UnmarshalJSON implements the json.Unmarshaler interface. The time must be a
 // quoted string in the "2006-01-02T15:04:05.999999999" format.
 func (ts *Timestamp) UnmarshalJSON(data []byte) error {
-	tim, err := time.Parse(timestampFormat, string(data[1:len(data)-1]))
+	str, err := unquoteJSON(data)
+	if err != nil {
+		return err
+	}
+	tim, err := time.Parse(timestampFormat, string(str))
 	if err != nil {
 		return fmt.Errorf(
 			"%w: Cannot parse %s as %q",
